@@ -29,6 +29,11 @@ namespace irx {
     z3::context ctx;
     std::vector<z3::expr> terms;
     std::vector<z3::expr> pc;
+    std::unique_ptr<z3::solver> inc;   // incremental solver mirroring pc (used while the path condition is 'easy')
+    size_t inc_n = 0;                   // number of pc entries already asserted in inc
+    bool pc_hard = false;
+    std::unordered_map<unsigned, bool> hard_cache;
+    std::unique_ptr<z3::model> last_model; size_t model_pc_n = (size_t)-1;
     std::vector<Obj> objs;          // index = id (0 unused)
     std::vector<Obj> objs_init;     // snapshot after global initialisation
     std::map<const GlobalVariable *, int> gobj;
@@ -56,6 +61,12 @@ namespace irx {
     const GlobalVariable * caught_type = nullptr;
     std::map<const GlobalVariable *, int> typeids;
     std::vector<std::string> events; // JSON lines
+    struct HostStream { std::string data; size_t pos = 0; bool open = true; };
+    std::vector<HostStream> hstreams; // host-backed input streams of the current path (ministl hooks)
+    int hout = 0;
+    // checkpoint taken by the harness (irx_checkpoint) before the first symbolic decision: later paths resume from it
+    bool have_snap = false;
+    std::vector<Obj> snap_objs; std::vector<Frame> snap_stack; size_t snap_terms = 0; std::vector<Input> snap_inputs; std::vector<z3::expr> snap_pc; std::vector<HostStream> snap_hs; long snap_insts = 0;
     std::set<std::string> unknown_externals;
     long emitted = 0;
 
@@ -100,21 +111,66 @@ namespace irx {
     Val symfp(const z3::expr & e) { Val x; x.k = Val::FP; x.sym = addterm(e); return x; }
 
     //---------------------------------------------------------------- solver
+    bool is_hard(const z3::expr & t)
+    {
+      if (!t.is_app()) return false;
+      auto it = hard_cache.find(t.id());
+      if (it != hard_cache.end()) return it->second;
+      bool h = false;
+      Z3_decl_kind k = t.decl().decl_kind();
+      unsigned n = t.num_args();
+      if (k == Z3_OP_UNINTERPRETED && n > 0) h = true;
+      else if (k == Z3_OP_MUL || k == Z3_OP_BMUL) { unsigned nn = 0; for (unsigned i = 0; i < n; i++) if (!t.arg(i).is_numeral()) nn++; if (nn >= 2) h = true; }
+      else if ((k == Z3_OP_DIV || k == Z3_OP_POWER || k == Z3_OP_BUDIV || k == Z3_OP_BSDIV || k == Z3_OP_BUREM || k == Z3_OP_BSREM) && n == 2 && !t.arg(1).is_numeral()) h = true;
+      for (unsigned i = 0; i < n && !h; i++) h = is_hard(t.arg(i));
+      hard_cache[t.id()] = h;
+      return h;
+    }
+    // is the cached model a model of the whole current path condition? (validated incrementally)
+    bool model_valid()
+    {
+      if (!last_model) return false;
+      if (model_pc_n > pc.size()) { last_model.reset(); return false; }
+      while (model_pc_n < pc.size()) {
+        bool ok = false;
+        try { ok = last_model->eval(pc[model_pc_n], true).is_true(); } catch (z3::exception &) {}
+        if (!ok) { last_model.reset(); return false; }
+        model_pc_n++;
+      }
+      return true;
+    }
+    void sync_inc()
+    {
+      if (!inc) { inc.reset(new z3::solver(ctx)); z3::params p(ctx); p.set("timeout", opt.timeout_ms); inc->set(p); inc->push(); inc_n = 0; }
+      if (inc_n > pc.size()) { inc->pop(); inc->push(); inc_n = 0; }
+      for (; inc_n < pc.size(); inc_n++) { inc->add(pc[inc_n]); if (!pc_hard && is_hard(pc[inc_n])) pc_hard = true; }
+    }
     z3::check_result check(const z3::expr & extra, z3::model * out = nullptr)
     {
-      z3::solver s(ctx);
-      z3::params p(ctx);
-      p.set("timeout", opt.timeout_ms);
-      s.set(p);
-      for (auto & a : pc) s.add(a);
-      s.add(extra);
       st.queries++;
       auto t0 = clk::now();
       z3::check_result r;
-      try { r = s.check(); } catch (z3::exception &) { r = z3::unknown; }
+      sync_inc();
+      if (!getenv("IRX_NOINC") && !pc_hard && !is_hard(extra)) {
+        inc->push();
+        inc->add(extra);
+        try { r = inc->check(); } catch (z3::exception &) { r = z3::unknown; }
+        if (r == z3::sat) { try { z3::model mm = inc->get_model(); if (out) *out = mm; last_model.reset(new z3::model(mm)); model_pc_n = pc.size(); } catch (z3::exception &) { last_model.reset(); } }
+        inc->pop();
+      } else {
+        // non-linear / uninterpreted content: from-scratch solver (the incremental core can hang uninterruptibly)
+        z3::solver s(ctx);
+        z3::params p(ctx);
+        p.set("timeout", opt.timeout_ms);
+        s.set(p);
+        for (auto & a : pc) s.add(a);
+        s.add(extra);
+        try { r = s.check(); } catch (z3::exception &) { r = z3::unknown; }
+        if (r == z3::sat) { try { z3::model mm = s.get_model(); if (out) *out = mm; last_model.reset(new z3::model(mm)); model_pc_n = pc.size(); } catch (z3::exception &) { last_model.reset(); } }
+      }
       st.solver_s += std::chrono::duration<double>(clk::now() - t0).count();
       if (r == z3::unknown) st.unknown++;
-      if (r == z3::sat && out) { try { *out = s.get_model(); } catch (z3::exception &) {} }
+      if (getenv("IRX_DUMPQ")) { std::cerr << "QUERY path " << st.paths << " result=" << r << " hard=" << pc_hard << " inc_n=" << inc_n << " pc=" << pc.size() << " extra=" << extra.to_string().substr(0, 200) << "\n"; }
       return r;
     }
 
@@ -131,8 +187,12 @@ namespace irx {
         d = prefix[pos] != 0;
         decs.push_back({d, false, site, strhash(c)});
       } else {
-        bool st_ = check(c) != z3::unsat;
-        bool sf_ = st_ ? (check(!c) != z3::unsat) : true;
+        bool st_, sf_;
+        int known = -1; // value of c under a cached model of exactly the current pc
+        if (model_valid()) { try { z3::expr mv = last_model->eval(c, true); if (mv.is_true()) known = 1; else if (mv.is_false()) known = 0; } catch (z3::exception &) {} }
+        if (known == 1) { st_ = true; sf_ = check(!c) != z3::unsat; }
+        else if (known == 0) { sf_ = true; st_ = check(c) != z3::unsat; }
+        else { st_ = check(c) != z3::unsat; sf_ = st_ ? (check(!c) != z3::unsat) : true; }
         if (!st_ && !sf_) throw PathEnd{"infeasible"};
         d = st_;
         if (st_ && sf_) st.forks++;
@@ -141,6 +201,7 @@ namespace irx {
       if (getenv("IRX_TRACE")) std::cerr << "path " << st.paths << " dec#" << pos << (pos < prefix.size() ? " [prefix] " : " [new] ") << d << " both=" << decs.back().both << " site=" << site << " " << c.to_string().substr(0, 120) << "\n";
       pos++;
       pc.push_back(d ? c : !c);
+
       dcache[c.id()] = d;
       dkeep.push_back(c);
       return d;
@@ -281,11 +342,19 @@ namespace irx {
       bool any_uninit = false, all_conc = true;
       for (uint64_t i = 0; i < n; i++) { if (b[i].k == Byte::UNINIT) any_uninit = true; if (b[i].k != Byte::CONC) all_conc = false; }
       if (any_uninit) {
-        // reading indeterminate memory: the value is arbitrary (fresh symbol); counted
-        st.uninit_reads++;
-        if (T->isPointerTy()) return Val::mk_ptr(0, 0);
-        if (T->isFloatingPointTy()) return symfp(ctx.real_const(("uninit_f" + std::to_string(fresh_counter++)).c_str()));
-        return symint(ctx.bv_const(("uninit_i" + std::to_string(fresh_counter++)).c_str(), T->getIntegerBitWidth()), T->getIntegerBitWidth());
+        bool all_uninit = true;
+        for (uint64_t i = 0; i < n; i++) if (b[i].k != Byte::UNINIT) all_uninit = false;
+        if (!T->isIntegerTy() || all_uninit) {
+          // reading indeterminate memory: the value is arbitrary (fresh symbol); counted
+          st.uninit_reads++;
+          if (T->isPointerTy()) return Val::mk_ptr(0, 0);
+          if (T->isFloatingPointTy()) return symfp(ctx.real_const(("uninit_f" + std::to_string(fresh_counter++)).c_str()));
+          Val fv = symint(ctx.bv_const(("uninit_i" + std::to_string(fresh_counter++)).c_str(), T->getIntegerBitWidth()), T->getIntegerBitWidth());
+          return fv;
+        }
+        // partially initialised integer (struct copies through padding): only the indeterminate bytes are arbitrary
+        for (uint64_t i = 0; i < n; i++) if (b[i].k == Byte::UNINIT) { b[i].k = Byte::SYMB; b[i].sym = addterm(ctx.bv_const(("pad" + std::to_string(fresh_counter++)).c_str(), 8)); }
+        all_conc = false;
       }
       if (all_conc) {
         uint64_t u = 0;
